@@ -41,12 +41,29 @@ static void *__va_arg_fp(__va_elem *ap, int sz, int align) {
   return r;
 }
 
+// A struct or union of at most 16 bytes is in the registers of the
+// classes of its eightbytes (bit 0 and 1 of sse: the first and the second
+// one is of class SSE) if enough of them remain, else in memory. It is
+// put together in buf.
+static void *__va_arg_struct(__va_elem *ap, int sz, int align, int sse, long *buf) {
+  int fp = (sse & 1) + (sz > 8 && (sse & 2));
+  int gp = (sz > 8 ? 2 : 1) - fp;
+  if (ap->gp_offset + gp * 8 > 48 || ap->fp_offset + fp * 16 > 176)
+    return __va_arg_mem(ap, sz, align);
+
+  for (int i = 0; i * 8 < sz; i++)
+    buf[i] = *(long *)((sse >> i & 1) ? __va_arg_fp(ap, 8, 8) : __va_arg_gp(ap, 8, 8));
+  return buf;
+}
+
 #define va_arg(ap, ty)                                                  \
   ({                                                                    \
     int klass = __builtin_reg_class(ty);                                \
+    long __va_buf[2];                                                   \
     *(ty *)(klass == 0 ? __va_arg_gp(ap, sizeof(ty), _Alignof(ty)) :    \
             klass == 1 ? __va_arg_fp(ap, sizeof(ty), _Alignof(ty)) :    \
-            __va_arg_mem(ap, sizeof(ty), _Alignof(ty)));                \
+            klass == 2 ? __va_arg_mem(ap, sizeof(ty), _Alignof(ty)) :   \
+            __va_arg_struct(ap, sizeof(ty), _Alignof(ty), klass - 3, __va_buf)); \
   })
 
 #define va_copy(dest, src) ((dest)[0] = (src)[0])
